@@ -341,7 +341,7 @@ def free_block():
             smp.fields[f] = U("self." + f)
         prop, trial, wd = U("prop"), U("trial"), U("wave_data")
         hd = {"chol": U("chol"), "h0": U("h0")}
-        pd0 = dict(_pd(run), norms=U("norms0"))
+        pd0 = dict(_pd(run), norms=U("norms0"), normed_overlaps=U("stale_normed_overlaps"))
         out, (tr, be, bw) = run.method(smp, "_block_scan_free", dict(pd0), U("x"), hd, prop, trial, wd)
         run.prove("one_scan", len(record) == 1 and len(steps) == 1, note="one scan over _step_scan_free")
         if len(record) != 1 or len(steps) != 1:
